@@ -46,6 +46,7 @@ from pyatv.interface import (
 from pyatv.protocols.airplay.auth import extract_credentials
 from pyatv.protocols.airplay.pairing import AirPlayPairingHandler
 from pyatv.protocols.airplay.utils import (
+    DBFS_MAX,
     AirPlayMajorVersion,
     dbfs_to_pct,
     get_protocol_version,
@@ -385,6 +386,10 @@ class RaopStream(Stream):
                     raise exceptions.ProtocolError(
                         f"initial volume {initial_volume} has "
                         "incorrect type {type(initial_volume)}",
+                    )
+                if not initial_volume <= DBFS_MAX:  # NaN is rejected as well
+                    raise exceptions.ProtocolError(
+                        f"initial volume {initial_volume} is out of range"
                     )
                 context.volume = initial_volume
             else:
